@@ -123,3 +123,14 @@ Theorem corr_matrix_diagonal_is_one_or_undefined :
     entry M i i = Some (match v with Some _ => Some 1%Qc | None => None end).
 Proof. exact corr_matrix_diagonal. Qed.
 Print Assumptions corr_matrix_diagonal_is_one_or_undefined.
+
+(* ... and over a finite window that is the pairwise result as well: corr(m, m), where defined, is one (C19) *)
+Require Import SC.Proofs.CorrSelfFacts.
+
+Theorem corr_matrix_diagonal_is_the_self_correlation :
+  forall (ms : list stairsQ) (a b : Qc) M i mi (v : V),
+    (forall m, In m ms -> wf m /\ minimal m) ->
+    arr_corr ms (Some a) (Some b) = Ok M -> nth_error ms i = Some mi ->
+    corr_signed_square mi mi (Some a) (Some b) 0%Qc ClipPre = Ok v -> entry M i i = Some v.
+Proof. exact corr_matrix_diagonal_is_pairwise. Qed.
+Print Assumptions corr_matrix_diagonal_is_the_self_correlation.
